@@ -558,7 +558,32 @@ func (e *Evaluator) transfer(v ssa.Value, get func(ssa.Value) AVal, depth int) A
 			}
 		}
 		return aTop
-	case *ssa.IndexAddr, *ssa.Index, *ssa.Lookup, *ssa.MakeMap, *ssa.MakeSlice, *ssa.MakeChan,
+	case *ssa.Lookup:
+		// lookup in a package-level table that is filled once, by its initialiser, with
+		// constant keys and never written again
+		if ld, ok := x.X.(*ssa.UnOp); ok && ld.Op == token.MUL {
+			if g, ok := ld.X.(*ssa.Global); ok {
+				key := get(x.Index)
+				if key.K == avBot {
+					return aBot
+				}
+				if tbl := e.P.globalMapTable(g); tbl != nil && key.K == avConst {
+					val, found := tbl[key.C.ExactString()]
+					if !found {
+						val = aTop
+						if typeIsInterface(x.X.Type().Underlying().(*types.Map).Elem()) {
+							val = AVal{K: avNil}
+						}
+					}
+					if x.CommaOk {
+						return AVal{K: avTuple, Elems: []AVal{val, aBool(found)}}
+					}
+					return val
+				}
+			}
+		}
+		return aTop
+	case *ssa.IndexAddr, *ssa.Index, *ssa.MakeMap, *ssa.MakeSlice, *ssa.MakeChan,
 		*ssa.MakeClosure, *ssa.Slice, *ssa.Range, *ssa.Next, *ssa.Select:
 		return aTop
 	}
@@ -694,4 +719,102 @@ func pureStd(fn *ssa.Function, args []AVal) AVal {
 
 func (r EvalResult) describe() string {
 	return fmt.Sprintf("ret=%s returns=%v panics=%v", r.Ret, r.Returns, r.Panics)
+}
+
+// globalMapTable: the contents of a package-level map variable, when it is assigned exactly
+// once (in the package initialiser) a freshly made map that is filled there with constant
+// keys, and every other use of the variable only reads it (lookup, range, len). nil otherwise.
+func (p *Program) globalMapTable(g *ssa.Global) map[string]AVal {
+	if p.mapTables == nil {
+		p.mapTables = map[*ssa.Global]map[string]AVal{}
+	}
+	if t, ok := p.mapTables[g]; ok {
+		return t
+	}
+	p.mapTables[g] = nil
+	if g.Pkg == nil {
+		return nil
+	}
+	initFn := g.Pkg.Func("init")
+	if initFn == nil {
+		return nil
+	}
+	var mk *ssa.MakeMap
+	nStores := 0
+	fns := []*ssa.Function{initFn}
+	for _, fn := range p.SrcFuncs {
+		if fn != initFn {
+			fns = append(fns, fn)
+		}
+	}
+	for _, fn := range fns {
+		for _, b := range fn.Blocks {
+			for _, in := range b.Instrs {
+				switch x := in.(type) {
+				case *ssa.Store:
+					if x.Addr == ssa.Value(g) {
+						nStores++
+						m, ok := x.Val.(*ssa.MakeMap)
+						if !ok || fn != initFn {
+							return nil
+						}
+						mk = m
+					}
+				case *ssa.UnOp:
+					if x.Op == token.MUL && x.X == ssa.Value(g) && x.Referrers() != nil {
+						for _, u := range *x.Referrers() {
+							switch y := u.(type) {
+							case *ssa.Lookup:
+								if y.X != ssa.Value(x) {
+									return nil
+								}
+							case *ssa.Range, *ssa.DebugRef:
+							case *ssa.Call:
+								if bi, ok := y.Common().Value.(*ssa.Builtin); !ok || bi.Name() != "len" {
+									return nil
+								}
+							default:
+								return nil // written, passed on, stored
+							}
+						}
+					}
+				}
+			}
+		}
+	}
+	if mk == nil || nStores != 1 || mk.Referrers() == nil {
+		return nil
+	}
+	tbl := map[string]AVal{}
+	for _, u := range *mk.Referrers() {
+		switch x := u.(type) {
+		case *ssa.MapUpdate:
+			k, ok := x.Key.(*ssa.Const)
+			if !ok || k.Value == nil {
+				return nil
+			}
+			var val AVal
+			switch v := x.Value.(type) {
+			case *ssa.Const:
+				if v.Value == nil {
+					val = AVal{K: avNil}
+				} else {
+					val = aConst(v.Value)
+				}
+			case *ssa.MakeInterface:
+				val = aDyn(v.X.Type())
+			default:
+				val = aTop
+			}
+			if _, dup := tbl[k.Value.ExactString()]; dup {
+				return nil
+			}
+			tbl[k.Value.ExactString()] = val
+		case *ssa.Store, *ssa.DebugRef:
+		default:
+			return nil
+		}
+	}
+	p.mapTables[g] = tbl
+	return tbl
 }
